@@ -80,9 +80,9 @@ CHECKS = {
  "C02": dict(
    text="KERNEL CLAIM plus a concrete side-condition. Solver-decided: bounded symbolic model checking of the identifier synthesis in gen/names.go (pascal, pascalSpecial, pascalNonEmpty, camel, "
         "camelSpecial, cleanSpecial with go/token.IsIdentifier, unicode case mapping and the naming rule table executed from SSA): for every ASCII name of 0..3 (4) bytes the result is an error or satisfies "
-        "the Go identifier grammar, is not a keyword and not '_'. NOT solver-decided (no symbolic dimension; the whole generator and the Go type checker are out of reach): a matrix of about 100 hostile/feature specs "
+        "the Go identifier grammar, is not a keyword and not '_'. NOT solver-decided (no symbolic dimension; the whole generator and the Go type checker are out of reach): a matrix of about 170 hostile/feature specs "
         "(names, enum edge values, shared generic responses, object-shaped parameters per location/style, pattern+default responses, 10 feature configurations incl. client-only / server-only / validation / "
-        "example tests) is generated by the tree's generator in every run and every accepted package - and its generated tests - must go build; a generator panic counts as a violation. Three known findings.",
+        "example tests) is generated by the tree's generator in every run and every accepted package - and its generated tests - must go build; a generator panic counts as a violation. Four known findings.",
    design="4 C02", technique="symbolic execution of go/ssa + SMT over all short names (kernel); concrete generate-and-build matrix as a side-condition"),
  "C07": dict(
    text="Bounded symbolic model checking of (a) jsonpointer.ResolveCtx (the cycle/depth mechanism): from every pre-state with 0..3 distinct in-progress references built through the real AddKey, one "
@@ -108,8 +108,7 @@ CHECKS = {
         "\\d\\w\\s and negations, dot, \\c \\x \\u \\u{} octal and identity escapes, classes incl. []/[^]/[\\b], non-BMP literals; 8 quantifiers, groups, alternation, edge anchors); the REAL "
         "ogenregex.Convert/Compile of /repo's tree is run on each; when the linear-time engine is chosen the ECMA pattern (Unicode-aware reading of its AST) and the converted RE2 text are "
         "both turned into RegLan terms - the RE2 side from Go's own regexp/syntax parse of the expression the compiled value really holds - and z3 5.1 decides that the symmetric difference of the two search languages is empty for ALL subject strings (no length bound); a witness is replayed "
-        "on the real ogenregex engine and on regexp2 (ECMAScript|Unicode) and counts only when the SMT reference and regexp2 agree against ogen. Non-regular patterns (look-around, "
-        "back-references) are checked for engine choice; String() is checked natively; Convert's totality on all byte strings of 0..3 (5) bytes is decided by an SSA unit.",
+        "on the real ogenregex engine and on regexp2 (ECMAScript|Unicode) and counts only when the SMT reference and regexp2 agree against ogen. Non-regular patterns (look-around, back-references incl. \\\\n after n groups for n = 1..12) are checked for engine choice; String() is checked natively; Convert's totality on all byte strings of 0..3 (5) bytes is decided by an SSA unit.",
    note="SMT-LIB regex semantics of z3 5.1.0; the ECMA-side pattern-to-RegLan translator written in this check and the mapping of Go's regexp/syntax AST to RegLan (validated by witness replay on the real engines); the matching engines themselves are not executed symbolically; alphabet: code points <= 0x2FFFF",
    design="4 C08", technique="SMT regular-expression equivalence (z3 seq/re theory) on Convert's real output + symbolic execution of Convert for totality"),
  "C01": dict(
